@@ -154,6 +154,8 @@ Result(r) ==
        \cup V(cfg.has_fault /\ ~Invalid /\ ~cfg.nul /\ ~r.ok /\ r.errkind = "io" => r.errno = cfg.fault_errno, "C07_errno_of_failing_step")
        \cup V(cfg.has_fault /\ ~Invalid /\ ~cfg.nul /\ cfg.fault_kind # "close" => ~r.ok, "C07_failure_reported")
        \cup V(~cfg.expect_start /\ ~cfg.has_fault => ~r.ok /\ r.errkind = "io", "C07_failure_reported")
+       \cup V(~cfg.expect_start /\ ~cfg.has_fault /\ cfg.class \in {"path-only-empty-local", "path-slash", "path-empty", "path-unset"}
+                => ~r.ok /\ r.errkind = "io", "C15_error_when_nothing_startable")
        \* C15: something runs iff some entry can start it; otherwise an operating-system error
        \cup V(cfg.has_path /\ FirstStartable = 0 => ~r.ok /\ r.errkind = "io" /\ r.errno # 0, "C15_error_when_nothing_startable")
        \cup V(cfg.has_path /\ FirstStartable # 0 => r.ok, "C15_first_startable_runs")
